@@ -1074,6 +1074,17 @@ func (self *Fork) doSplit(getBindings func() MarshalerMap) MetadataState {
 	return Ready
 }
 
+// nilChunkDef returns the index of the first chunk definition which is nil
+// (written as null by the split), or -1.
+func nilChunkDef(defs []*ChunkDef) int {
+	for i, def := range defs {
+		if def == nil {
+			return i
+		}
+	}
+	return -1
+}
+
 func (self *Fork) doChunks(state MetadataState, getBindings func() MarshalerMap) MetadataState {
 	self.node.top.rt.JobManager.endJob(self.split_metadata)
 	if self.isVolatile() {
@@ -1103,6 +1114,10 @@ func (self *Fork) doChunks(state MetadataState, getBindings func() MarshalerMap)
 Error: %s
 Chunk count: %d`,
 				errstring, len(self.stageDefs.ChunkDefs)))
+		} else if i := nilChunkDef(self.stageDefs.ChunkDefs); i >= 0 {
+			self.split_metadata.WriteErrorString(fmt.Sprintf(
+				`The split method returned null instead of a dictionary for chunk %d.`,
+				i))
 		} else if len(self.stageDefs.ChunkDefs) == 0 {
 			// Skip the chunk phase.
 			state = Complete.Prefixed(ChunksPrefix)
